@@ -744,3 +744,88 @@ def run_date_cmp(P, rep, rule="R-TABLE.datecmp"):
         else:
             rep.viol(rule, aid.rsplit("::", 1)[1], "-", "fields %s, derived cmp impls %d, hand-written %d: comparison is no longer simply the wrapped instant's"
                      % (ftys, len(derived), len(hand)))
+
+
+# ---------------------------------------------------------------------------------------
+# which library operation implements which filter (C13, C14, C15)
+
+SF = "liquid_lib::stdlib::filters::"
+FILTER_OPS = {
+    # filter struct -> (needs any of, forbids) over a vocabulary of direction/identity-bearing std methods
+    SF + "string::case::UpcaseFilter": ({"to_uppercase"}, {"to_lowercase", "to_ascii_lowercase"}),
+    SF + "string::case::DowncaseFilter": ({"to_lowercase"}, {"to_uppercase", "to_ascii_uppercase"}),
+    SF + "string::case::CapitalizeFilter": ({"to_uppercase"}, {"to_lowercase", "rev", "last"}),
+    SF + "string::strip::StripFilter": ({"trim"}, {"trim_start", "trim_end", "trim_matches", "trim_start_matches", "trim_end_matches"}),
+    SF + "string::strip::LstripFilter": ({"trim_start"}, {"trim", "trim_end", "trim_matches", "trim_end_matches"}),
+    SF + "string::strip::RstripFilter": ({"trim_end"}, {"trim", "trim_start", "trim_matches", "trim_start_matches"}),
+    SF + "math::CeilFilter": ({"ceil"}, {"floor", "round", "trunc"}),
+    SF + "math::FloorFilter": ({"floor"}, {"ceil", "round", "trunc"}),
+    SF + "math::RoundFilter": ({"round"}, {"ceil", "floor", "trunc"}),
+    SF + "math::AtLeastFilter": ({"max"}, {"min"}),
+    SF + "math::AtMostFilter": ({"min"}, {"max"}),
+    SF + "array::ReverseFilter": ({"reverse", "rev"}, {"sort_by", "sort"}),
+    SF + "array::FirstFilter": ({"first", "next", "nth", "chars", "get"}, {"last", "next_back", "rev", "nth_back"}),
+    SF + "array::LastFilter": ({"last", "next_back", "rev"}, {"first"}),
+    SF + "array::ConcatFilter": ({"chain", "extend", "append"}, {"rev", "dedup", "retain"}),
+    SF + "array::CompactFilter": ({"filter", "retain", "filter_map"}, {"rev", "dedup"}),
+    SF + "array::JoinFilter": ({"join"}, {"rev"}),
+    SF + "string::SplitFilter": ({"split"}, {"rsplit", "rev", "split_whitespace"}),
+    SF + "string::operate::ReplaceFilter": ({"replace"}, {"replacen", "splitn"}),
+    SF + "string::operate::RemoveFilter": ({"replace"}, {"replacen", "splitn"}),
+    SF + "string::operate::ReplaceFirstFilter": ({"splitn", "replacen"}, {"rsplitn", "replace"}),
+    SF + "string::operate::RemoveFirstFilter": ({"splitn", "replacen"}, {"rsplitn", "replace"}),
+    SF + "html::NewlineToBrFilter": ({"replace"}, {"replacen"}),
+}
+OPS_VOC = set("to_uppercase to_lowercase to_ascii_uppercase to_ascii_lowercase trim trim_start trim_end trim_matches trim_start_matches "
+              "trim_end_matches rev reverse ceil floor round trunc max min first last next next_back nth nth_back chars get chain extend append "
+              "dedup retain filter filter_map join split rsplit split_whitespace replace replacen splitn rsplitn sort_by sort".split())
+
+
+def run_filter_ops(P, rep, only=None, rule="R-TABLE.filterops"):
+    from origins import SelfOrigins
+    for st, (need, forbid) in sorted(FILTER_OPS.items()):
+        if only and not any(st.startswith(SF + o) for o in only):
+            continue
+        key = "<%s as liquid_core::parser::filter::Filter>::evaluate" % st
+        fns = P.by_key(key)
+        if len(fns) != 1:
+            rep.anchor_missing(rule, key)
+            continue
+        fn = fns[0]
+        names = set()
+        for body, _ in SelfOrigins(P, fn, seed={}).all_bodies():
+            for bi, t in P.calls(body):
+                f = t.get("f")
+                if f and not f["krate"].startswith("liquid"):
+                    l = f["id"].rsplit("::", 1)[1]
+                    if l in OPS_VOC:
+                        names.add(l)
+        site = st.rsplit("::", 1)[1].replace("Filter", "").lower()
+        if not (names & need):
+            rep.viol(rule, site, P.where(fn), "filter `%s` no longer uses any of %s (uses %s)" % (site, sorted(need), sorted(names)))
+        elif names & forbid:
+            rep.viol(rule, site, P.where(fn), "filter `%s` uses %s, the operation of its opposite/sibling filter" % (site, sorted(names & forbid)))
+        else:
+            rep.ok(rule, site, P.where(fn), "implemented with %s" % sorted(names & need))
+    # append / prepend: which side receives the other
+    for st, recv_is_input in ((SF + "string::operate::AppendFilter", True), (SF + "string::operate::PrependFilter", False)):
+        if only and not any(st.startswith(SF + o) for o in only):
+            continue
+        key = "<%s as liquid_core::parser::filter::Filter>::evaluate" % st
+        fns = P.by_key(key)
+        if len(fns) != 1:
+            rep.anchor_missing(rule, key)
+            continue
+        fn = fns[0]
+        ps = [t for bi, t in P.calls(fn) if t.get("f") and t["f"]["id"].rsplit("::", 1)[1] == "push_str"]
+        site = st.rsplit("::", 1)[1].replace("Filter", "").lower()
+        if len(ps) != 1:
+            rep.viol(rule, site, P.where(fn), "expected one push_str, found %d" % len(ps))
+            continue
+        ol = op_local(ps[0]["args"][0])
+        locs, calls = backward_slice(fn, ol[0]) if ol else (set(), [])
+        from_input = 2 in locs
+        if from_input != recv_is_input:
+            rep.viol(rule, site, P.where(fn), "`%s` puts the text on the wrong side of the input" % site)
+        else:
+            rep.ok(rule, site, P.where(fn), "receiver of push_str is %s" % ("the input" if recv_is_input else "the argument"))
